@@ -15,7 +15,10 @@ import (
 
 // OpenIndex opens an index file previously created using the IndexWriter.
 func OpenIndex(file string, opts ...IndexOption) (*Index, error) {
-	db, err := bbolt.Open(file, 0644, &bbolt.Options{OpenFile: openfile.OpenFile(openfile.Options{FailIfFileDoesntExist: true})})
+	// the index is never written to, so it is opened read-only: bbolt then takes a
+	// shared instead of an exclusive file lock, and the same file can be opened
+	// more than once (e.g. by the sql driver with different options).
+	db, err := bbolt.Open(file, 0644, &bbolt.Options{ReadOnly: true, OpenFile: openfile.OpenFile(openfile.Options{FailIfFileDoesntExist: true})})
 	if err != nil {
 		return nil, err
 	}
